@@ -96,8 +96,8 @@ def spaces (n : Nat) : Text := List.replicate n ' '
 /-- The text without its white space (what a pure re-layout must preserve). -/
 def nonWs (t : Text) : Text := t.filter fun c => !isWs c
 
-/-- `' '` or `'\t'`: what `trim_end_matches([' ', '\t'])` removes. -/
-def isBlank (c : Char) : Bool := c == ' ' || c == '\t'
+/-- `' '`, `'\t'` or `'\r'`: what `trim_end_matches([' ', '\t', '\r'])` removes (web formatter). -/
+def isBlank (c : Char) : Bool := c == ' ' || c == '\t' || c == '\r'
 
 /-- `String::repeat`. -/
 def repeatText (t : Text) : Nat → Text
@@ -251,9 +251,20 @@ def formatLineTokensFrom (kc : KwCase) (st : Style) : Option K → List Tok → 
   | _, [] => []
   | prev, t :: rest => sepBefore prev t.kind st ++ recase kc t ++ formatLineTokensFrom kc st (some t.kind) rest
 
-/-- `format_line_tokens`. -/
-def formatLineTokens (ts : List Tok) (kc : KwCase) (st : Style) : Text :=
+/-- First loop of `format_line_tokens`: the tokens glued by `should_glue`. -/
+def gluedLine (ts : List Tok) (kc : KwCase) (st : Style) : Text :=
   formatLineTokensFrom kc st none ts
+
+/-- Fallback of `format_line_tokens`: one space between all tokens. -/
+def spacedLine (ts : List Tok) (kc : KwCase) : Text :=
+  joinWith [' '] (ts.map (recase kc))
+
+/-- `format_line_tokens`.  `relexOk` is the verdict of `relexes_to(&out, tokens, source)`: the glued text
+lexes to exactly these tokens (keywords up to case).  The lexer is not modelled, so the verdict is an input
+(the harness computes it with `trust_syntax::lex` on the model's glued text; the theorems tie it to
+`LexIface`). -/
+def formatLineTokens (ts : List Tok) (kc : KwCase) (st : Style) (relexOk : Bool) : Text :=
+  if relexOk then gluedLine ts kc st else spacedLine ts kc
 
 /-! ## Which glued pairs re-lex to themselves: the class-level characterisation `classSafe`
 
@@ -361,18 +372,17 @@ def computedHazards : List (Cls × Cls × Style) :=
   Cls.all.flatMap fun a => Cls.all.flatMap fun b => [Style.spaced, Style.compact].filterMap fun st =>
     if !excludedKind a.kind && !excludedKind b.kind && gluedUnsafe a b st then some (a, b, st) else none
 
-/-- The recorded glue hazards (known finding C15-glue-hazards), glued in BOTH spacing styles: written out by
-hand; `c15_glue_safe_partial` proves that the generated glue rule has no unsafe pair outside this table. -/
+/-- The pairs that `should_glue` glues in BOTH spacing styles although they do not re-lex as two tokens:
+exactly where the re-lex guard of `format_line_tokens` has to fall back to one space (since fix 944815f these
+are no longer defects).  Written out by hand; `c15_glue_safe_partial` proves that the generated glue rule
+has no unsafe pair outside this table. -/
 def hazardsAlways : List (Cls × Cls) := [
   (.k .Dot, .k .Dot), (.k .Dot, .k .DotDot), (.k .DotDot, .k .Dot), (.k .DotDot, .k .DotDot),
   (.k .LParen, .k .Star), (.k .LParen, .k .Power),
-  (.k .IntLiteral, .k .Dot), (.k .IntLiteral, .k .Hash), (.k .IntLiteral, .k .TypedLiteralPrefix),
-  (.k .IntLiteral, .temporal), (.k .RealLiteral, .k .TypedLiteralPrefix), (.k .TimeLiteral, .k .TypedLiteralPrefix),
-  (.k .TimeOfDayLiteral, .k .Dot), (.k .TimeOfDayLiteral, .k .DotDot), (.k .TimeOfDayLiteral, .k .TypedLiteralPrefix),
-  (.k .DateAndTimeLiteral, .k .Dot), (.k .DateAndTimeLiteral, .k .DotDot),
-  (.k .DateAndTimeLiteral, .k .TypedLiteralPrefix), (.k .DirectAddress, .k .Dot),
-  (.k .Ident, .k .Hash), (.k .Ident, .k .TypedLiteralPrefix), (.k .Ident, .temporal),
-  (.k .Kw, .k .Hash), (.k .Kw, .k .TypedLiteralPrefix), (.k .Kw, .temporal),
+  (.k .IntLiteral, .k .Dot), (.k .IntLiteral, .k .Hash),
+  (.k .TimeOfDayLiteral, .k .Dot), (.k .TimeOfDayLiteral, .k .DotDot),
+  (.k .DateAndTimeLiteral, .k .Dot), (.k .DateAndTimeLiteral, .k .DotDot), (.k .DirectAddress, .k .Dot),
+  (.k .Ident, .k .Hash), (.k .Kw, .k .Hash),
   (.temporal, .k .Plus), (.temporal, .k .Minus), (.temporal, .k .IntLiteral), (.temporal, .k .RealLiteral)]
 
 /-- Hazards that exist only in the compact spacing style (operators glued to their neighbours). -/
@@ -401,6 +411,7 @@ structure LineIn where
   hasLineComment : Bool
   hasPragma : Bool
   hasString : Bool
+  relexOk : Bool := true      -- verdict of `relexes_to` for the glued text of this line's tokens
   deriving Repr, Inhabited
 
 /-- `indent_level`, `in_var_block`. -/
@@ -452,20 +463,29 @@ def curIndent (cfg : Config) (indent : Int) (toks : List Tok) : Int × Bool :=
     else (indent, false)
   | none => (indent, false)
 
+/-- `first_colon_is_token`: the first ':' of the line (other than ":=") belongs to a `Colon` token. -/
+def firstColonIsToken : List Tok → Bool
+  | [] => false
+  | t :: rest =>
+    if t.name == "Colon" then true
+    else if t.name == "Assign" then firstColonIsToken rest
+    else if t.text.contains ':' then false
+    else firstColonIsToken rest
+
 /-- The formatted line of a non-blank line outside block comments, with its masks. -/
 def emitLine (cfg : Config) (l : LineIn) (lineInVar : Bool) (cur : Nat) : OutLine :=
   let prefix_ := repeatText (indentUnit cfg) cur
   let verbatim := l.hasLineComment || l.hasPragma
   let line :=
     if verbatim then prefix_ ++ trim l.text
-    else prefix_ ++ formatLineTokens l.toks cfg.kwCase cfg.style
-  { text := line, inVar := lineInVar, colon := if lineInVar && !verbatim then findTypeColon line else none,
+    else prefix_ ++ formatLineTokens l.toks cfg.kwCase cfg.style l.relexOk
+  { text := line, inVar := lineInVar, colon := if lineInVar && !verbatim && firstColonIsToken l.toks then findTypeColon line else none,
     skipAlign := skipAlignOf l }
 
 /-- `indent_level` after the line. -/
 def nextIndent (cur : Int) (dedentAfter : Bool) (toks : List Tok) : Int :=
   let lvl := if lineHasIndentStart toks then cur + 1 else cur
-  if dedentAfter then lvl - 1 else lvl
+  if dedentAfter then max (lvl - 1) 0 else lvl
 
 /-- Body of the `for i in 0..line_count` loop.  `none` = the Rust code panics
 (`indent_unit.repeat(current_indent as usize)` with a negative `current_indent`). -/
@@ -665,7 +685,7 @@ structure Built where
   deriving Repr, Inhabited
 
 /-- First loop of `format_document` (token-to-line assignment and the four line masks). -/
-def buildDoc (b : ByteArray) (toks : List RawTok) : Option Built := do
+def buildDoc (b : ByteArray) (toks : List RawTok) (noRelex : List Nat := []) : Option Built := do
   let src ← decodeSlice b 0 b.size
   let starts := lineStartsOf b
   let n := starts.size
@@ -689,6 +709,11 @@ def buildDoc (b : ByteArray) (toks : List RawTok) : Option Built := do
         if idx < n then inBlock := inBlock.set! idx true
       if endLine > startLine then mlComment := true
       continue
+    -- every other token (no Whitespace tokens are passed in) that spans several lines - a pragma, an
+    -- unterminated comment / pragma (Error) - makes its lines verbatim, like a block comment
+    if endLine > startLine then
+      for idx in [startLine:endLine + 1] do
+        if idx < n then inBlock := inBlock.set! idx true
     if t.name == "LineComment" then
       if startLine < n then hasLC := hasLC.set! startLine true
       continue
@@ -715,7 +740,8 @@ def buildDoc (b : ByteArray) (toks : List RawTok) : Option Built := do
     let lineEnd := if i + 1 < n then starts[i + 1]! - 1 else b.size
     let text ← decodeSlice b lineStart lineEnd
     lines := { text := stripCR text, toks := (lineToks[i]!).reverse, inBlockComment := inBlock[i]!,
-               hasLineComment := hasLC[i]!, hasPragma := hasPragma[i]!, hasString := hasStr[i]! } :: lines
+               hasLineComment := hasLC[i]!, hasPragma := hasPragma[i]!, hasString := hasStr[i]!,
+               relexOk := !noRelex.contains i } :: lines
   return { src := src,
            doc := { lines := lines, crlf := bytesContainCRLF b,
                     endsNl := b.size > 0 && b.get! (b.size - 1) == 10 },
@@ -736,19 +762,32 @@ def colonIsToken (cfg : Config) (l : LineIn) (o : OutLine) : Bool :=
   match o.colon with
   | none => true
   | some c =>
-    let lead := utf8Len o.text - utf8Len (formatLineTokens l.toks cfg.kwCase cfg.style)
+    let lead := utf8Len o.text - utf8Len (formatLineTokens l.toks cfg.kwCase cfg.style l.relexOk)
     (tokenOffsetsFrom cfg.kwCase cfg.style none lead l.toks).any fun (off, t) => off == c && t.kind == .Colon
 
-/-- Names of the guards that a (configuration, document) pair violates. -/
+/-- A line whose tokens are re-emitted by `format_line_tokens` (no mask, not blank). -/
+def LineIn.isTokenLine (l : LineIn) : Bool :=
+  !(l.inBlockComment || l.hasLineComment || l.hasPragma || (trim l.text).isEmpty)
+
+/-- Lines for which the verdict of the re-lex guard matters (glued and spaced text differ), with the glued
+text: what the harness lexes with the real lexer. -/
+def relexQueries (cfg : Config) (d : Doc) : List (Nat × Text) :=
+  (d.lines.zipIdx.filterMap fun (l, i) =>
+    let g := gluedLine l.toks cfg.kwCase cfg.style
+    if l.isTokenLine && g != spacedLine l.toks cfg.kwCase then some (i, g) else none)
+
+/-- Names of the guards that a (configuration, document) pair violates.  Only the guards of findings that
+are still open explain a failure of the oracle; the others are kept as coverage counters (`glue-fallback`:
+the re-lex guard took the one-space fallback) or as alarms (`var-colon-in-token`, `indent-underflow-panic`
+must never fire on the repaired code). -/
 def docGuards (cfg : Config) (bd : Built) : List String :=
   let d := bd.doc
-  let glue := d.lines.flatMap fun l =>
-    if l.inBlockComment || l.hasLineComment || l.hasPragma || (trim l.text).isEmpty then []
-    else (lineHazards cfg.style l.toks).map fun (a, b) =>
-      -- recorded hazard / pair with an Error token (outside the table) / a pair the table does not know
-      if knownHazard a b cfg.style then s!"glue:{a.name}+{b.name}"
-      else if excludedKind a.kind || excludedKind b.kind then s!"glue-error:{a.name}+{b.name}"
-      else s!"glue-unrecorded:{a.name}+{b.name}"
+  let fallback := if d.lines.any (fun l => l.isTokenLine && !l.relexOk) then ["glue-fallback"] else []
+  let unrecorded := d.lines.flatMap fun l =>
+    if !l.isTokenLine then []
+    else (lineHazards cfg.style l.toks).filterMap fun (a, b) =>
+      if knownHazard a b cfg.style || excludedKind a.kind || excludedKind b.kind then none
+      else some s!"glue-unrecorded:{a.name}+{b.name}"
   let core := runLines cfg {} d.lines
   let panic := if core.isNone then ["indent-underflow-panic"] else []
   let wrapped := match core with
@@ -761,7 +800,7 @@ def docGuards (cfg : Config) (bd : Built) : List String :=
       if cfg.alignVar && ((d.lines.zip outs).any fun (l, o) => !colonIsToken cfg l o) then ["var-colon-in-token"]
       else []
     | none => []
-  glue.eraseDups ++ panic ++ wrapped ++ colon ++
+  fallback ++ unrecorded.eraseDups ++ panic ++ wrapped ++ colon ++
     (if bd.multiLinePragma then ["multiline-pragma"] else []) ++
     (if bd.openError then ["open-ended-error-token"] else []) ++
     (if bd.hasError then ["error-token"] else [])
@@ -858,7 +897,8 @@ def expandRange (spans : List (Nat × Nat)) (startLine endLine : Nat) : Nat × N
 /-- `range_formatting`. -/
 def rangeFormat (cfg : Config) (src : Text) (d : Doc) (spanToks : List SpanTok)
     (sl _sc el ec : Nat) : Reply :=
-  match formatDocument cfg d with
+  -- `config.max_line_length = None`: the edit is assembled by source line index
+  match formatDocument { cfg with maxLen := none } d with
   | none => .panic
   | some f =>
     if f = src then .edits []
@@ -874,7 +914,7 @@ def rangeFormat (cfg : Config) (src : Text) (d : Doc) (spanToks : List SpanTok)
 
 /-- `on_type_formatting`. -/
 def onTypeFormat (cfg : Config) (src : Text) (d : Doc) (line : Nat) : Reply :=
-  match formatDocument cfg d with
+  match formatDocument { cfg with maxLen := none } d with
   | none => .panic
   | some f =>
     if f = src then .edits []
@@ -941,7 +981,7 @@ where
     | [last] => if last.isEmpty then [] else [last]
     | l :: rest => stripCR l :: go rest
 
-/-- `str::trim_end_matches([' ', '\t'])`. -/
+/-- `str::trim_end_matches([' ', '\t', '\r'])`. -/
 def trimEndBlanks (t : Text) : Text :=
   (t.reverse.dropWhile isBlank).reverse
 
